@@ -179,6 +179,29 @@ CLAIMS = {
         note="Value equality with an actual aggregate + join-back is not decided.",
         technique="dataflow role extraction + sibling (aggregate vs window) fact and alpha-canonical comparison",
         design="2/C13"),
+    "C14": dict(
+        text="Permutation and stability are decided by structure: one index list list(range(nrows)) that only .sort() ever "
+             "touches, passes from the last key to the first, each with its own column data and its own reverse flag (bound per "
+             "iteration), every column gathered through that same list under its source name; Vector.sort_by stores "
+             "sorted(self._underlying). None placement is decided EXACTLY: the key functions of both sort_by's are evaluated by "
+             "the abstract interpreter for every (None / value) x reverse x na_last cell (including the enclosing statements that "
+             "select or parameterise the key), requiring distinct flags and None after all values iff na_last once the reversal "
+             "is applied. reverse normalisation, purity, by-name key resolution.",
+        note="Totality of the order on the non-None values is user data and not decided.",
+        technique="typestate of the index list + shape matchers + finite abstract evaluation of the sort key functions",
+        design="2/C14"),
+    "C17": dict(
+        text="The sanitiser's pipeline order and step details are decided from its AST, its regular expression is parsed with "
+             "re._parser (kept alphabet a subset of [a-z0-9_], + quantifier), the reserved set computed from the class bodies is "
+             "closed under the '_' suffix and disjoint from generated forms; the naming kernels of the accessor map and of the "
+             "repr header agree fact by fact (forms, separator rule, repeats detected over ALL columns with the column's own "
+             "position); every path of __getattr__/__setattr__/__setitem__(str) that returned no positional accessor passes "
+             "through the map lookup (CFG must-pass); the map is read only through the rebuild-if-renamed helper, built maps are "
+             "always stored, every store to a column name in a Table method is followed by a rebuild; nothing writes stored "
+             "names; string indexing is exact-name-first.",
+        note="Pairwise distinctness of accessors is argued from the decided ingredients (suffix rules + own position), not enumerated.",
+        technique="AST pipeline matcher + regex syntax-tree analysis + kernel fact comparison + CFG must-pass-through + who-may-read rule",
+        design="2/C17"),
 }
 
 PENDING = "static rules for this property are designed (DESIGN.md section 2) but not yet built in this round; not claimed yet"
